@@ -588,6 +588,35 @@ def _gen_private_cases(a, b, tag):
                tag=tag + " ari", info=_seq_info("_adjusted_rand_index", a, b), nontrivial=nontriv)
 
 
+def _gen_entropy_cases(a, b, rng, tag, beta=Fr(1)):
+    """the translated entropy family (Float instance): _entropy, _mutual_info_score (computing the table itself and
+    with a pre-computed one), nce (both normalisations) and vmeasure on the unit-frame realisation"""
+    ya, yb = np.array(a, dtype=int), np.array(b, dtype=int)
+    n = len(a)
+    nontriv = n >= 2 and (len(set(a)) > 1 or len(set(b)) > 1)
+    yield Case("gen.segindex", ["_entropy", list(a)], lambda ya=ya: S._entropy(ya),
+               tag=tag + " entropy", info=_seq_info("_entropy", a, a), nontrivial=len(set(a)) > 1)
+    yield Case("gen.segindex", ["_mutual_info_score", list(a), list(b), None],
+               lambda ya=ya, yb=yb: S._mutual_info_score(ya, yb),
+               tag=tag + " mi", info=_seq_info("_mutual_info_score", a, b), nontrivial=nontriv)
+    if n == len(b) and n > 0:
+        c = S._contingency_matrix(ya, yb)
+        yield Case("gen.segindex", ["_mutual_info_score", list(a), list(b), c.tolist()],
+                   lambda ya=ya, yb=yb, c=c: S._mutual_info_score(ya, yb, contingency=c.astype(float)),
+                   tag=tag + " mi precomputed", info=_seq_info("_mutual_info_score", a, b), nontrivial=nontriv)
+        rows, arr = _unit(n)
+        rl, el = ["r%d" % v for v in a], ["E%d" % v for v in b]
+        fb = float(beta)
+        marg = rng.random() < 0.5
+        yield Case("gen.segindex", ["nce", rows, rl, rows, el, Fr(1), beta, marg],
+                   lambda: S.nce(arr, rl, arr, el, frame_size=1.0, beta=fb, marginal=marg),
+                   tag=tag + (" nce marginal" if marg else " nce plain"), info=_seq_info("nce", a, b, beta),
+                   nontrivial=nontriv)
+        yield Case("gen.segindex", ["vmeasure", rows, rl, rows, el, Fr(1), beta],
+                   lambda: S.vmeasure(arr, rl, arr, el, frame_size=1.0, beta=fb),
+                   tag=tag + " vmeasure", info=_seq_info("vmeasure", a, b, beta), nontrivial=nontriv)
+
+
 def _gen_public_cases(a, b, rng, tag, beta=Fr(1)):
     """pairwise / rand_index / ari (translated prologue + core) on the unit-frame realisation of two sequences"""
     n = len(a)
@@ -618,10 +647,12 @@ def suite_gen_segindex(rng, tier, shard, nshards):
             for b in seqs:
                 cases += list(_gen_private_cases(a, b, "rgs n=%d" % n))
                 cases += list(_gen_public_cases(a, b, rng, "rgs n=%d" % n))
+                cases += list(_gen_entropy_cases(a, b, rng, "rgs n=%d" % n))
     # corners
     for a, b in ([], []), ([3], [7]), ([0, 1], [0]), ([0], [0, 1]), ([], [0]), ([0, 0, 1], [0, 0]), ([1, 1, 1], [2, 2, 2]), \
             ([0, 1, 2, 3], [3, 2, 1, 0]), ([0, 1, 2, 3], [0, 0, 0, 0]), ([4, 4], [9, 1]):
         cases += list(_gen_private_cases(a, b, "corner"))
+        cases += list(_gen_entropy_cases(a, b, rng, "corner"))
     for i, c in enumerate(cases):
         if i % nshards == shard:
             yield c
@@ -646,6 +677,8 @@ def suite_gen_segindex(rng, tier, shard, nshards):
         if n <= 13:
             for c in _gen_public_cases(a, b, rng, "random n=%d" % n, rng.choice([Fr(1), Fr(1, 2), Fr(2)])):
                 yield c
+        for c in _gen_entropy_cases(a, b, rng, "random n=%d" % n, rng.choice([Fr(1), Fr(1, 2), Fr(2)])):
+            yield c
     # the translated public functions on lattice annotations (validation, empty sides, frame sampling = externs)
     for _ in range(10 if tier == "quick" else 200):
         ref, est, fs = rand_pair_E(rng)
@@ -669,6 +702,14 @@ def suite_gen_segindex(rng, tier, shard, nshards):
         yield Case("gen.segindex", ["ari"] + margs + [fs],
                    lambda ri=ri, rl=rl, ei=ei, el=el, f=f: S.ari(ri, rl, ei, el, frame_size=f),
                    tag="E ari_public", info=dict(info, fn="ari"))
+        marg = rng.random() < 0.5
+        yield Case("gen.segindex", ["nce"] + margs + [fs, beta, marg],
+                   lambda ri=ri, rl=rl, ei=ei, el=el, f=f, bb=bb, marg=marg: S.nce(ri, rl, ei, el, frame_size=f, beta=bb,
+                                                                                  marginal=marg),
+                   tag="E nce", info=dict(info, fn="nce"))
+        yield Case("gen.segindex", ["vmeasure"] + margs + [fs, beta],
+                   lambda ri=ri, rl=rl, ei=ei, el=el, f=f, bb=bb: S.vmeasure(ri, rl, ei, el, frame_size=f, beta=bb),
+                   tag="E vmeasure", info=dict(info, fn="vmeasure"))
 
 
 SUITES = {"lattice": suite_lattice, "decimal": suite_decimal, "irregular": suite_irregular,
@@ -971,7 +1012,8 @@ def _oracle_gen(site):
 ORACLES = {site: _oracle_gen(site) for site in CHECKERS}
 
 _GEN_SITES = {"pairwise": ["segment.pairwise"], "rand_index": ["segment.rand_index"], "ari": ["segment.ari"],
-              "_adjusted_rand_index": ["segment.ari"],
+              "_adjusted_rand_index": ["segment.ari"], "nce": ["segment.nce"], "vmeasure": ["segment.vmeasure"],
+              "_entropy": ["segment.mutual_information"], "_mutual_info_score": ["segment.mutual_information"],
               "_contingency_matrix": ["segment.ari", "segment.mutual_information", "segment.nce"]}
 
 
